@@ -176,7 +176,7 @@ class _QueryResponse:
         """
         if TYPE_CHECKING:
             record = cast(_UniqueRecordsType, record)
-        maybe_entry = self._cache.async_get_unique(record)
+        maybe_entry = self._cached_copy(record)
         if maybe_entry is None:
             return False
         # The quarter is taken from the TTL of the record we are answering with; the
@@ -190,8 +190,21 @@ class _QueryResponse:
         """
         if TYPE_CHECKING:
             record = cast(_UniqueRecordsType, record)
-        maybe_entry = self._cache.async_get_unique(record)
+        maybe_entry = self._cached_copy(record)
         return bool(maybe_entry is not None and self._now - maybe_entry.created < _ONE_SECOND)
+
+    def _cached_copy(self, record: _UniqueRecordsType) -> Optional[DNSRecord]:
+        """The copy of one of our own records that was heard on the network.
+
+        An address record that arrived on an IPv6 socket is cached with the scope id
+        of the receiving interface, which our own record does not have.
+        """
+        maybe_entry = self._cache.async_get_unique(record)
+        if maybe_entry is None and isinstance(record, DNSAddress):
+            for cached in self._cache.get_all_by_details(record.name, record.type, record.class_):
+                if isinstance(cached, DNSAddress) and cached.address == record.address:
+                    return cached
+        return maybe_entry
 
 
 class QueryHandler:
